@@ -20,6 +20,9 @@ PROP = "C04"
 CELL_TYPES = ["signal-M", "signal-N", "signal-C", "iron-plate", "signal-5", "water"]
 
 
+_retyped = [False]
+
+
 def _step(ch: Chooser, prev, inputs: list[str]):
     op = ch.weighted([(5, "+"), (2, "-"), (2, "*"), (3, "%"), (1, "/"), (1, "XOR"), (1, "AND"),
                       (1, "OR"), (1, "<<"), (1, ">>")])
@@ -31,6 +34,10 @@ def _step(ch: Chooser, prev, inputs: list[str]):
         b = ["var", ch.pick(inputs)]
     else:
         b = ["lit", ch.i32_biased(-20, 20) or 1, 10]
+    if op in ("+", "-", "*", "XOR", "AND", "OR") and ch.chance(1, 4):
+        if b[0] == "var":
+            _retyped[0] = True            # the result takes the input's type: project back later
+        return ["bin", op, b, prev]       # the cell (or the chain so far) as the RIGHT operand
     return ["bin", op, prev, b]
 
 
@@ -74,6 +81,7 @@ def gen_case(ch: Chooser, tier: str = "quick") -> dict:
                                                     prev if order == "shared" else ["read", m],
                                                     ["lit", kq, 10]]])
                 early.append(q)
+        _retyped[0] = False
         if form == "named":
             for _j in range(k - 1):
                 uid += 1
@@ -90,6 +98,8 @@ def gen_case(ch: Chooser, tier: str = "quick") -> dict:
             elif form == "sel":
                 lim = ch.pick([5, 10, 100, 1000])
                 data = ["sel", ["bin", "<", ["read", m] if order != "shared" else prev0, ["lit", lim, 10]], data]
+        if _retyped[0] and data[0] != "proj":
+            data = ["proj", data, mt] if data[0] != "sel" else ["sel", data[1], ["proj", data[2], mt]]
         stmts.append(["write", m, data, None])
         r = f"r{ci + 1}"
         stmts.append(["decl", "Signal", r, ["read", m]])
@@ -111,6 +121,47 @@ def gen_case(ch: Chooser, tier: str = "quick") -> dict:
         "ticks": ch.pick([60, 90, 140, 200]),
         "options": gen.gen_options(ch), "plan": gen.gen_plan(ch),
     }
+
+
+def reuses_a_source(stmts) -> bool:
+    """Static trigger of KF-crosstalk for this family: some value (an input, the cell's read, a named
+    step) is used at two or more places of the computation that feeds one cell's write."""
+    decls = {s[2]: s[3] for s in stmts if s[0] == "decl" and s[1] == "Signal"}
+    inputs = {n for n, e in decls.items() if e[0] == "siglit"}
+
+    def leaves(e, out, depth=0):
+        if not isinstance(e, list) or not e:
+            return
+        if e[0] == "read":
+            out.append(("read", e[1]))
+            return
+        if e[0] == "var":
+            if e[1] in inputs or e[1] not in decls or depth > 12:
+                out.append(("var", e[1]))
+            else:
+                out.append(("step", e[1]))
+                leaves(decls[e[1]], out, depth + 1)
+            return
+        for x in e[1:]:
+            if isinstance(x, list):
+                leaves(x, out, depth)
+
+    everywhere: list = []
+    for s in stmts:
+        if s[0] == "write":
+            out: list = []
+            leaves(s[2], out)
+            if len(out) != len(set(out)):
+                return True
+            everywhere += [x for x in out if x[0] == "var"]
+        elif s[0] == "decl" and s[1] == "Signal" and s[3][0] != "siglit":
+            out = []
+            for x in s[3][1:]:
+                if isinstance(x, list) and x[0] == "var" and x[1] in inputs:
+                    out.append(("var", x[1]))
+            everywhere += out
+    # ... or one input feeds two different computations (two cells, a cell and a reader)
+    return len(everywhere) != len(set(everywhere))
 
 
 def run_case(case: dict) -> dict:
@@ -136,7 +187,11 @@ def run_case(case: dict) -> dict:
                 res["status"] = "excluded"
                 res["excluded_by"] = "same-source-two-roles"
                 return res
-        if "crosstalk" in (case.get("exclude") or []):
+        if "crosstalk" in (case.get("exclude") or []) and reuses_a_source(stmts):
+            # Both must hold: the program has the shape that triggers the known defect (decided on
+            # the text: one value feeds the update in two places) AND the emitted blueprint shows
+            # the structure.  The structure alone is not enough - a change that *creates* a fused
+            # network in a program without that shape must be judged.
             labels = {n: k for k, v in obs.inputs.items() for n in v}
             if crosstalk_sites(w, [], labels, memory_ok=True):
                 res["status"] = "excluded"
